@@ -16,6 +16,26 @@ Reading of the source
   unless the raise is the only way out of an else-branch, in which case the branch yields `default_on_raise`;
 * `int(e)` truncates toward zero, `math.ceil`/`np.ceil` and `//` are exact on rationals, `round` is not accepted;
 * float literals are the exact doubles.
+
+Typed reading (class `TFn`, used by the extractors `exprs_bygene.py` / `exprs_genemetrics.py`; property C16).  The code
+read here is index / selection logic, not arithmetic, so values carry a type (Rat, Int, Nat, String, List _):
+* a field of a table row `row.log2` / `row["log2"]` / a column used elementwise `self.data["log2"]` becomes the parameter
+  `row_log2` / `log2`, typed by the column (log2, depth, weight: Rat; start, end, probes: Int; gene, chromosome: String);
+  a plain name that is never bound is a parameter whose type is taken from what it is compared / combined with;
+* a name that is indexed, measured or searched is a list: `v[0]` is `v.headD 0`, `v[-1]` is `v.getLastD 0`, `len(v)` is
+  `v.length` (the length of a table that is not otherwise read is the parameter `v_len`), `x in v` is `x ∈ v`, `sum(c for s in v)` is `v.countP c`, `a + b` on lists is `++`, `tuple(v)` / `list(v)` is `v`,
+  a tuple / list literal is a list literal from which `np.nan` is dropped (NaN is equal to no name);
+* truthiness: of a number `≠ 0`, of a string `≠ ""`, of a list `≠ []`; `a < b < c` is `a < b ∧ b < c`; a comparison bound to a
+  name and updated with `|=` / `&=` is the disjunction / conjunction (elementwise reading of a boolean mask);
+* `int(e)`, `math.ceil(e)` of an Int-typed `e` are `e`; float literals are the exact doubles; `params.ANTITARGET_ALIASES`
+  (not a plain literal, so not inlined) is the definition of that name in Generated/Consts.lean;
+* a loop body is read as ONE ITERATION: a function from the loop-carried variables (the names bound before the loop and
+  re-bound in it) to the list of values it yields (`yield v`, or `acc.append(v)`) and the new values of those variables;
+  `continue` ends the iteration, `logging.*(...)` calls and `if`s that only log are skipped, an `if` is a case split of the
+  whole rest of the body; `"depth" in table` / `"weight" in table` hold (the models' tables carry both columns: the harness
+  models a missing one as the constant 1); `return table[mask]` is read as the predicate "the row is kept";
+* a yielded table slice `wrapper(table.iloc[a:b])` is read as the pair of positions `(a, some b)`, `table.iloc[a:]` as
+  `(a, none)` -- which rows those positions select is the model's `slice` / `drop`.
 """
 from __future__ import annotations
 
@@ -292,3 +312,319 @@ def emit(repo, o, specs):
             continue
         o.lines.append(text)
         o.info[lean] = {"params": params}
+
+
+# ---------------------------------------------------------------------------------------------------------------------
+# typed reading (see the module docstring): conditions, list expressions, one iteration of a loop that yields
+
+
+def _lean_str(s):
+    import json
+    return json.dumps(s, ensure_ascii=False)
+
+
+class TFn:
+    """translator state for one generated definition: parameters (in order of first use) with their types"""
+    COLUMNS = {"log2": "Rat", "depth": "Rat", "weight": "Rat", "gene": "String", "chromosome": "String",
+               "start": "Int", "end": "Int", "probes": "Int"}
+    NUMERIC = ("Rat", "Int", "Nat")
+    # constants of cnvlib/params.py that are not plain literals (plain ones are inlined by translate.parse): they are
+    # read as the definitions of Generated/Consts.lean, which the generated file must import
+    PARAMS = {"ANTITARGET_ALIASES": "List String", "IGNORE_GENE_NAMES": "List String", "ANTITARGET_NAME": "String"}
+
+    def __init__(self, hints=None, num="Int", elem="Nat", table_names=("self", "data")):
+        self.params = {}            # name -> type or None (not yet known)
+        self.hints = dict(hints or {})
+        self.num = num              # type of a numeric parameter nothing else determines
+        self.elem = elem            # element type of a list parameter nothing else determines
+        self.table_names = set(table_names)
+
+    # -- parameters ----------------------------------------------------------------------------------------------
+    def param(self, name, typ=None):
+        if name not in self.params:
+            self.params[name] = self.hints.get(name, typ)
+        elif self.params[name] is None and typ is not None:
+            self.params[name] = typ
+        return name, self.params[name]
+
+    def _settle(self, text, typ, want):
+        """an untyped parameter takes the type of what it meets"""
+        if typ is None and want is not None and want != "num" and text in self.params and self.params[text] is None:
+            self.params[text] = want
+            return want
+        return typ
+
+    def _unify(self, a, ta, b, tb):
+        ta = self._settle(a, ta, tb)
+        tb = self._settle(b, tb, ta)
+        if ta == "num":
+            ta = tb
+        if tb == "num":
+            tb = ta
+        return ta if ta is not None else tb
+
+    def _as_list(self, e, env, elem=None):
+        t, ty = self.expr(e, env)
+        if ty is None:
+            ty = "List " + (elem if elem not in (None, "num") else self.elem)
+            self.params[t] = ty
+        if not str(ty).startswith("List "):
+            raise Untranslatable(f"`{ast.unparse(e)}` is used as a list but has type {ty}")
+        return t, ty
+
+    @staticmethod
+    def _zero(elem):
+        return {"String": '""'}.get(elem, "0")
+
+    # -- expressions ---------------------------------------------------------------------------------------------
+    def expr(self, e, env):
+        """(Lean term, type); type None = a parameter whose type is not known yet, "num" = an integer literal"""
+        if isinstance(e, ast.Constant):
+            if isinstance(e.value, bool) or e.value is None:
+                raise Untranslatable(f"constant {e.value!r} in value position")
+            if isinstance(e.value, int):
+                return (str(e.value) if e.value >= 0 else f"({e.value})"), "num"
+            if isinstance(e.value, float):
+                return _rat(e.value), "Rat"
+            if isinstance(e.value, str):
+                return _lean_str(e.value), "String"
+            raise Untranslatable(f"constant {e.value!r}")
+        if isinstance(e, ast.Name):
+            if e.id in env:
+                v = env[e.id]
+                if len(v) == 3 and v[0] == "LAZY":   # bound outside the piece being read: translated where it is used
+                    return self.expr(v[1], v[2])
+                return v
+            return self.param(e.id)
+        if isinstance(e, ast.Attribute) and isinstance(e.value, ast.Name) and e.value.id == "params" \
+                and e.attr in self.PARAMS:
+            return e.attr, self.PARAMS[e.attr]   # the constant of Generated/Consts.lean
+        if isinstance(e, ast.Attribute) and e.attr in self.COLUMNS and isinstance(e.value, ast.Name) \
+                and e.value.id not in env:
+            return self.param(f"{e.value.id}_{e.attr}", self.COLUMNS[e.attr])
+        if isinstance(e, ast.Subscript):
+            sl = e.slice
+            if isinstance(sl, ast.Constant) and isinstance(sl.value, str) and sl.value in self.COLUMNS:
+                # a column of the table at hand (`self.data["log2"]`), or a field of a row (`row["log2"]`)
+                base = e.value
+                if isinstance(base, ast.Attribute) and base.attr == "data":
+                    base = base.value
+                if isinstance(base, ast.Name) and base.id not in env:
+                    if base.id in self.table_names:
+                        return self.param(sl.value, self.COLUMNS[sl.value])
+                    return self.param(f"{base.id}_{sl.value}", self.COLUMNS[sl.value])
+            idx = None
+            if isinstance(sl, ast.Constant) and isinstance(sl.value, int):
+                idx = sl.value
+            elif isinstance(sl, ast.UnaryOp) and isinstance(sl.op, ast.USub) and isinstance(sl.operand, ast.Constant):
+                idx = -sl.operand.value
+            if idx in (0, -1):
+                t, ty = self._as_list(e.value, env)
+                el = ty[5:]
+                return f"({t}.{'headD' if idx == 0 else 'getLastD'} {self._zero(el)})", el
+            raise Untranslatable("subscript " + ast.unparse(e))
+        if isinstance(e, ast.UnaryOp) and isinstance(e.op, ast.USub):
+            t, ty = self.expr(e.operand, env)
+            return f"(-{t})", ty
+        if isinstance(e, (ast.Tuple, ast.List)):
+            items = []
+            el = None
+            for x in e.elts:
+                if ast.unparse(x) in ("np.nan", "numpy.nan", "float('nan')", "math.nan"):
+                    continue
+                t, ty = self.expr(x, env)
+                el = el or ty
+                items.append(t)
+            return "[" + ", ".join(items) + "]", "List " + (el or self.elem)
+        if isinstance(e, ast.BinOp):
+            a, ta = self.expr(e.left, env)
+            b, tb = self.expr(e.right, env)
+            if isinstance(e.op, ast.Add) and (str(ta).startswith("List ") or str(tb).startswith("List ")):
+                ty = ta if str(ta).startswith("List ") else tb
+                self._settle(a, ta, ty)
+                self._settle(b, tb, ty)
+                return f"({a} ++ {b})", ty
+            sym = {ast.Add: "+", ast.Sub: "-", ast.Mult: "*"}.get(type(e.op))
+            if sym is None:
+                raise Untranslatable(ast.unparse(e))
+            ty = self._unify(a, ta, b, tb)
+            if ty is not None and ty != "num" and ty not in self.NUMERIC:
+                raise Untranslatable(f"arithmetic on {ty}: " + ast.unparse(e))
+            return f"({a} {sym} {b})", ty
+        if isinstance(e, ast.Call):
+            f = ast.unparse(e.func)
+            args = e.args
+            if f in ("abs", "np.abs", "np.absolute") and len(args) == 1 and not e.keywords:
+                t, ty = self.expr(args[0], env)
+                return f"(if {t} < 0 then -{t} else {t})", ty
+            if f in ("tuple", "list") and len(args) == 1 and not e.keywords:
+                return self._as_list(args[0], env, "String" if self.elem is None else None)
+            if f == "len" and len(args) == 1:
+                a0 = args[0]
+                if isinstance(a0, ast.Name) and a0.id not in env and not str(
+                        self.params.get(a0.id) or self.hints.get(a0.id) or "").startswith("List "):
+                    return self.param(a0.id + "_len", "Nat")   # the length of a table: a parameter of its own
+                t, _ty = self._as_list(a0, env)
+                return f"{t}.length", "Nat"
+            if f in ("int", "math.ceil", "np.ceil", "float") and len(args) == 1 and not e.keywords:
+                t, ty = self.expr(args[0], env)
+                if ty in ("Int", "Nat") or (f == "float" and ty == "Rat"):
+                    return t, ty
+                raise Untranslatable(f"{f} of a value of type {ty}: " + ast.unparse(e))
+            if f == "sum" and len(args) == 1 and isinstance(args[0], ast.GeneratorExp) and len(args[0].generators) == 1:
+                g = args[0].generators[0]
+                if isinstance(g.target, ast.Name) and not g.ifs:
+                    lt, lty = self._as_list(g.iter, env)
+                    inner = dict(env)
+                    inner[g.target.id] = (g.target.id, lty[5:])
+                    c = self.cond(args[0].elt, inner)
+                    return f"({lt}.countP (fun {g.target.id} => decide {c}))", "Nat"
+            raise Untranslatable("call " + ast.unparse(e))
+        raise Untranslatable(ast.unparse(e))
+
+    def cond(self, e, env):
+        """a Lean proposition (decidable)"""
+        if isinstance(e, ast.BoolOp):
+            op = " ∧ " if isinstance(e.op, ast.And) else " ∨ "
+            return "(" + op.join(self.cond(v, env) for v in e.values) + ")"
+        if isinstance(e, ast.UnaryOp) and isinstance(e.op, (ast.Not, ast.Invert)):
+            return f"(¬ {self.cond(e.operand, env)})"
+        if isinstance(e, ast.Compare):
+            parts = []
+            left = e.left
+            for op, right in zip(e.ops, e.comparators):
+                if isinstance(op, (ast.In, ast.NotIn)):
+                    a, ta = self.expr(left, env)
+                    l, lty = self._as_list(right, env, ta)
+                    self._settle(a, ta, lty[5:])
+                    parts.append(f"{a} ∈ {l}" if isinstance(op, ast.In) else f"¬ {a} ∈ {l}")
+                else:
+                    sym = {ast.Lt: "<", ast.LtE: "≤", ast.Gt: ">", ast.GtE: "≥", ast.Eq: "=", ast.NotEq: "≠"}.get(type(op))
+                    if sym is None:
+                        raise Untranslatable(ast.unparse(e))
+                    a, ta = self.expr(left, env)
+                    b, tb = self.expr(right, env)
+                    self._unify(a, ta, b, tb)
+                    parts.append(f"{a} {sym} {b}")
+                left = right
+            return "(" + " ∧ ".join(parts) + ")"
+        if isinstance(e, ast.Constant) and isinstance(e.value, bool):
+            return "True" if e.value else "False"
+        # truthiness of a value
+        if isinstance(e, ast.Name) and e.id in env and len(env[e.id]) == 2 and env[e.id][1] == "Prop":
+            return env[e.id][0]
+        t, ty = self.expr(e, env)
+        if ty is None:
+            ty = self._settle(t, ty, self.num)
+        if ty in self.NUMERIC or ty == "num":
+            return f"({t} ≠ 0)"
+        if ty == "String":
+            return f'({t} ≠ "")'
+        if str(ty).startswith("List "):
+            return f"({t} ≠ [])"
+        raise Untranslatable("truth value of " + ast.unparse(e))
+
+    # -- one iteration of a loop / a straight-line block that yields ------------------------------------------------
+    def _slice_pair(self, e, env):
+        """`wrapper(table.iloc[a:b])` / `table.iloc[a:b]` -> (a, some b) / (a, none); None if `e` is not such a slice"""
+        x = e
+        while isinstance(x, ast.Call) and len(x.args) == 1 and not x.keywords and isinstance(x.func, ast.Attribute):
+            x = x.args[0]
+        if isinstance(x, ast.Subscript) and isinstance(x.value, ast.Attribute) and x.value.attr == "iloc" \
+                and isinstance(x.slice, ast.Slice) and x.slice.step is None:
+            lo = ("0", "num") if x.slice.lower is None else self.expr(x.slice.lower, env)
+            self._settle(lo[0], lo[1], "Nat")
+            if x.slice.upper is None:
+                return f"({lo[0]}, none)"
+            hi = self.expr(x.slice.upper, env)
+            self._settle(hi[0], hi[1], "Nat")
+            return f"({lo[0]}, some {hi[0]})"
+        return None
+
+    def yielded(self, e, env):
+        if isinstance(e, ast.Tuple):
+            return "(" + ", ".join(self.yielded(x, env) for x in e.elts) + ")"
+        sp = self._slice_pair(e, env)
+        if sp is not None:
+            return sp
+        return self.expr(e, env)[0]
+
+    def step(self, stmts, env, ys, state):
+        """the rest of one iteration: a term of type `List Y` (no loop-carried variables) or `List Y × S₁ × …`"""
+        if not stmts or isinstance(stmts[0], ast.Continue):
+            out = "[" + ", ".join(ys) + "]"
+            if not state:
+                return out
+            return "(" + ", ".join([out] + [self.expr(ast.Name(id=v, ctx=ast.Load()), env)[0] for v in state]) + ")"
+        s, rest = stmts[0], list(stmts[1:])
+        if isinstance(s, ast.Expr):
+            v = s.value
+            if isinstance(v, ast.Constant):
+                return self.step(rest, env, ys, state)
+            if isinstance(v, ast.Yield) and v.value is not None:
+                return self.step(rest, env, ys + [self.yielded(v.value, env)], state)
+            if isinstance(v, ast.Call) and isinstance(v.func, ast.Attribute):
+                if isinstance(v.func.value, ast.Name) and v.func.value.id == "logging":
+                    return self.step(rest, env, ys, state)
+                if v.func.attr == "append" and len(v.args) == 1 and not v.keywords:
+                    return self.step(rest, env, ys + [self.yielded(v.args[0], env)], state)
+            raise Untranslatable("statement " + ast.unparse(s)[:80])
+        if isinstance(s, ast.Assign) and len(s.targets) == 1 and isinstance(s.targets[0], ast.Name):
+            env = dict(env)
+            if isinstance(s.value, (ast.Compare, ast.BoolOp)):
+                env[s.targets[0].id] = (self.cond(s.value, env), "Prop")
+            else:
+                env[s.targets[0].id] = self.expr(s.value, env)
+            return self.step(rest, env, ys, state)
+        if isinstance(s, ast.AugAssign) and isinstance(s.target, ast.Name) and isinstance(s.op, (ast.BitOr, ast.BitAnd)) \
+                and s.target.id in env and env[s.target.id][1] == "Prop":
+            env = dict(env)
+            op = "∨" if isinstance(s.op, ast.BitOr) else "∧"
+            env[s.target.id] = (f"({env[s.target.id][0]} {op} {self.cond(s.value, env)})", "Prop")
+            return self.step(rest, env, ys, state)
+        if isinstance(s, ast.Return) and not state and not ys and s.value is not None:
+            v = s.value
+            if isinstance(v, ast.Subscript) and isinstance(v.value, ast.Name) and v.value.id in self.table_names:
+                return f"decide {self.cond(v.slice, env)}"   # `table[mask]`: the rows it keeps
+            return self.expr(v, env)[0]
+        if isinstance(s, ast.If) and not s.orelse and all(
+                isinstance(b, ast.Expr) and isinstance(b.value, ast.Call) and isinstance(b.value.func, ast.Attribute)
+                and isinstance(b.value.func.value, ast.Name) and b.value.func.value.id == "logging" for b in s.body):
+            return self.step(rest, env, ys, state)   # an `if` that only logs
+        if isinstance(s, ast.If):
+            c = self.cond(s.test, env)
+            if c == "True":
+                return self.step(list(s.body) + rest, dict(env), list(ys), state)
+            if c == "False":
+                return self.step(list(s.orelse) + rest, dict(env), list(ys), state)
+            th = self.step(list(s.body) + rest, dict(env), list(ys), state)
+            el = self.step(list(s.orelse) + rest, dict(env), list(ys), state)
+            return f"(if {c} then {th} else {el})"
+        raise Untranslatable(type(s).__name__ + ": " + ast.unparse(s)[:80])
+
+    # -- emission ------------------------------------------------------------------------------------------------
+    def signature(self):
+        out = []
+        for name, ty in self.params.items():
+            ty = ty or self.num
+            out.append(f"({name} : {ty})")
+        return " ".join(out)
+
+    def define(self, lean_name, ret, body, comment=None):
+        doc = f"/-- {comment} -/\n" if comment else ""
+        sig = self.signature()
+        return doc + f"def {lean_name} {sig + ' ' if sig else ''}: {ret} :=\n  {body}", list(self.params)
+
+
+def emit_typed(o, lean_name, build, comment=None):
+    """`build()` returns (TFn, return type, body); a piece outside the subset leaves a comment instead of a definition,
+    so that exactly the theorems about it stop checking"""
+    try:
+        t, ret, body = build()
+        text, params = t.define(lean_name, ret, body, comment)
+    except (Untranslatable, KeyError, IndexError, StopIteration, OSError, SyntaxError, AttributeError) as e:
+        o.lines.append(f"-- NOT TRANSLATED: {lean_name}: {type(e).__name__}: {str(e)[:200]}".replace("\n", " "))
+        o.info[lean_name] = {"error": str(e)[:200]}
+        return
+    o.lines.append(text)
+    o.info[lean_name] = {"params": params}
